@@ -30,6 +30,8 @@ def main():
             props = args[i + 1]; i += 2
         elif args[i] == "--seed":
             seed = args[i + 1]; i += 2
+        elif args[i] == "--no-witness":
+            os.environ["VPROP_NO_WITNESS"] = "1"; i += 1
         else:
             muts.append(args[i].rstrip("/")); i += 1
     for m in muts:
@@ -51,7 +53,7 @@ def main():
                 sigs = re.findall(r"^\s+signature: (.*)$", out, re.M)
                 rec = {"mutant": m, "property_checked": p, "tier": tier, "seed": int(seed), "exit": r.returncode,
                        "detected": r.returncode == 1 and "VIOLATION property=" in out,
-                       "signatures": sigs[:6], "wall_s": round(time.time() - t0, 1)}
+                       "signatures": sigs[:6], "witnesses": "VPROP_NO_WITNESS" not in os.environ, "wall_s": round(time.time() - t0, 1)}
                 if r.returncode not in (0, 1):
                     rec["tail"] = out[-600:]
                 print(json.dumps(rec))
